@@ -638,7 +638,9 @@ theorem Excl_step (cfg : Cfg) (s : St) (op : Op) (h : Excl s) : Excl (step cfg s
     · exact h
   | removeIdle c =>
     simp only [step]; split; exact h
-    exact Excl_removeIdleLocked s c h
+    split
+    · exact Excl_removeIdleLocked s c h
+    · exact h
   | idleTimeout c =>
     simp only [step]; split; exact h
     exact Excl_closeConn cfg _ c (Excl_removeIdleLocked s c h)
